@@ -45,6 +45,11 @@ pub enum CovSpec {
     HeaderField(u8, bool),
     /// approves iff the coin being spent was created at this height (heap slot 8)
     CreatedAt(u64),
+    /// always approves, after writing 1 into heap slot `slot` (the environment slots 0..=10 included): what one
+    /// input's covenant writes must not be what another input's covenant reads
+    Stores(u16),
+    /// approves iff heap slot `slot` holds a true value - on the fresh heap every input's covenant starts with it fails
+    NeedsSlot(u16),
 }
 
 impl CovSpec {
@@ -86,6 +91,8 @@ impl CovSpec {
             }
             CovSpec::Heavy => Covenant::from_ops(&[PushI(1u8.into()), Loop(30, 2), Loop(20, 1), Noop]).to_bytes(),
             CovSpec::CreatedAt(h) => Covenant::from_ops(&[LoadImm(8), PushI(U256::from(*h)), Eql]).to_bytes(),
+            CovSpec::Stores(slot) => Covenant::from_ops(&[PushI(1u8.into()), StoreImm(*slot), PushI(1u8.into())]).to_bytes(),
+            CovSpec::NeedsSlot(slot) => Covenant::from_ops(&[LoadImm(*slot)]).to_bytes(),
             CovSpec::HeaderField(i, want_zero) => {
                 let mut ops = vec![PushI(U256::from(*i)), LoadImm(10), VRef];
                 if matches!(i, 1 | 3 | 4 | 5 | 9 | 10) {
@@ -130,7 +137,14 @@ impl Wallet {
         let nk = self.keys.len() as u64;
         // the covenant-centred stream: unusual covenants much more often
         if twins() >= 6 && r.chance(1, 3) {
-            return match r.below(6) {
+            return match r.below(7) {
+                6 => {
+                    if r.chance(2, 3) {
+                        CovSpec::Stores(*r.pick(&[100u16, 100, 1, 0, 5, 9, 3, 65535]))
+                    } else {
+                        CovSpec::NeedsSlot(*r.pick(&[100u16, 100, 65535, 11]))
+                    }
+                }
                 0 | 1 => CovSpec::Truncated(r.below(nk) as usize, 1 + r.below(60) as usize),
                 2 => CovSpec::Undecodable,
                 3 => CovSpec::IndexIs(r.below(3) as u8),
@@ -165,7 +179,14 @@ impl Wallet {
                     CovSpec::HeaderField(*r.pick(&[9u8, 6, 1, 4, 3, 7]), r.chance(1, 3))
                 }
             }
-            _ => match r.below(4) {
+            _ => match r.below(5) {
+                4 => {
+                    if r.chance(2, 3) {
+                        CovSpec::Stores(*r.pick(&[100u16, 1, 0, 5, 9]))
+                    } else {
+                        CovSpec::NeedsSlot(100)
+                    }
+                }
                 0 => CovSpec::Never,
                 1 => CovSpec::Undecodable,
                 _ => CovSpec::Truncated(r.below(nk) as usize, 1 + r.below(60) as usize),
